@@ -12,7 +12,7 @@ def handle (j : Json) : Except String Json := do
   match op with
   | "ns" =>
     return Json.mkObj [("lazy", nsOut (lazyNsmaps t)), ("eager_pinned", nsOut (eagerNsmaps t)),
-                       ("inscope", nsOut (some (inScope [] t)))]
+                       ("inscope", nsOut (some (inScope [] t))), ("eager_safe", eagerSafe t)]
   | "iter" =>
     let d ← getNat j "d"
     let sel : String → Bool := match j.getObjValAs? String "tag" with
